@@ -361,9 +361,9 @@ def slice_bounds(sl, n):
             # symbolic bound: python clamps to [0, n]; negative values wrap (+n)
             w = site(slt(v, 0), T.smax2(sadd(v, n), 0), T.smin2(v, n))
             return w
-        s = clampi(start, 0)
-        e = clampi(stop, n)
-        cnt = T.smax2(ssub(e, s), 0)
+        s = T.resolve_dim(clampi(start, 0))
+        e = T.resolve_dim(clampi(stop, n))
+        cnt = T.resolve_dim(T.smax2(ssub(e, s), 0))
         return s, cnt, 1
     if step == -1 and start is None and stop is None:
         return ssub(n, 1), n, -1
